@@ -2,6 +2,7 @@
   C17 — Rejected and read-only calls change nothing.
 -/
 import HSModel.Proofs.StepLemmas
+import HSModel.Proofs.RefineAll
 namespace HS.C17
 open Abs
 variable (cfg : Config) (o : Oracle)
@@ -186,5 +187,30 @@ theorem unpaired_checksum (alg : Str) (add : SArg) (c a : Str) (hadd : add = .no
 
 example : ¬ Late .valueError ∧ ¬ Late .unsupportedAlgorithm ∧ ¬ Late .pidRefsDoesNotExist := by
   simp [Late]
+
+
+/-- **concrete**: when the concrete run of any call returns an argument error
+    (any error class that is not raised after a write), the store it leaves holds
+    the same abstract state as before — same bindings, objects and documents, no
+    temp file, indexes still exact -/
+theorem concrete_rejected_no_change (c : Call) (st : Store) (log : List Eff) (a : Abs) (hs : Sim o st a)
+    (ho : GoodOracle o) (hc : CidArgPlain c) (e : Exc)
+    (h : ((c.prog cfg o).run (calm st log)).1 = .error e) (hl : ¬ Late e) :
+    Sim o ((c.prog cfg o).run (calm st log)).2.st a := by
+  obtain ⟨w', hrun, _, _, hs'⟩ := refines_step cfg o c st log a hs ho hc
+  rw [hrun] at h ⊢
+  rw [rejected_no_change cfg o a c e h hl] at hs'
+  exact hs'
+
+/-- **concrete**: the three read-only calls leave the world exactly as it was -/
+theorem concrete_readonly_no_change (st : Store) (log : List Eff) (a : Abs) (hs : Sim o st a) (ho : GoodOracle o)
+    (pid x : SArg) :
+    ((retrieveObject cfg o pid).run (calm st log)).2 = calm st log ∧
+    ((retrieveMetadata cfg o pid x).run (calm st log)).2 = calm st log ∧
+    ((getHexDigest cfg o pid x).run (calm st log)).2 = calm st log := by
+  refine ⟨?_, ?_, ?_⟩
+  · rw [(retrieve_refines cfg o st log a pid hs ho.inj).1]
+  · rw [(rmeta_refines cfg o st log a pid x hs).1]
+  · rw [(hex_refines cfg o st log a pid x hs ho.inj).1]
 
 end HS.C17
